@@ -14,7 +14,8 @@ def solve_one(ob, timeout_ms=10000, use_cvc5=True):
         ob.status, ob.solver, ob.time_s = "proved", "simplifier", 0.0
         return ob
     s = z3.Solver()
-    s.set("timeout", timeout_ms)
+    quantified = any(_has_quant(c) for c in list(ob.pc) + [ob.goal])
+    s.set("timeout", min(timeout_ms, 4000) if quantified else timeout_ms)
     for c in ob.pc:
         s.add(c)
     s.add(z3.Not(ob.goal))
@@ -28,14 +29,36 @@ def solve_one(ob, timeout_ms=10000, use_cvc5=True):
     else:
         ob.status = "unknown"
         ob.reason = s.reason_unknown()
-        if use_cvc5:
+        if use_cvc5 and not quantified:
             r2 = run_cvc5(s.to_smt2(), timeout_ms)
             if r2 == "unsat":
                 ob.status, ob.solver = "proved", "cvc5"
             elif r2 == "sat":
                 ob.status, ob.solver = "failed", "cvc5"
+        if ob.status == "unknown":
+            try:
+                fs, m = finite_scope(ob, timeout_ms)
+            except z3.Z3Exception as e:
+                fs, m = "unknown", None
+            if fs == "proved":
+                ob.status, ob.solver = "proved", "z3-ground-instances"
+            elif fs == "candidate":
+                ob.status, ob.solver, ob.model = "candidate", "z3-finite-scope", m
     ob.time_s = time.time() - t0
     return ob
+
+
+def _has_quant(e):
+    todo, seen = [e], set()
+    while todo:
+        x = todo.pop()
+        if x.get_id() in seen:
+            continue
+        seen.add(x.get_id())
+        if z3.is_quantifier(x):
+            return True
+        todo.extend(x.children())
+    return False
 
 
 def run_cvc5(smt2, timeout_ms, extra=()):
@@ -65,3 +88,99 @@ def model_value(model, expr):
     if z3.is_string_value(v):
         return v.as_string()
     return str(v)
+
+
+# ---------------------------------------------------------------------------------------------------
+# Finite-scope / ground instantiation: used when a quantified query ends `unknown`.
+# Assumption quantifiers are replaced by their instances over the ground terms of the query (a weaker assumption set):
+#   unsat  => the obligation is proved (sound);  sat => a *candidate* counterexample (to be replayed / confirmed).
+# ---------------------------------------------------------------------------------------------------
+def _ground_terms(exprs):
+    ints, strs = {}, {}
+    seen = set()
+    todo = list(exprs)
+    while todo:
+        e = todo.pop()
+        if e.get_id() in seen:
+            continue
+        seen.add(e.get_id())
+        if z3.is_quantifier(e):
+            continue      # bodies contain bound variables: skipped
+        if z3.is_app(e):
+            srt = e.sort()
+            if srt == z3.IntSort() and (z3.is_const(e) or e.decl().kind() == z3.Z3_OP_SELECT):
+                if not z3.is_int_value(e):
+                    ints[e.get_id()] = e
+            elif srt == z3.StringSort() and (z3.is_const(e) or z3.is_string_value(e)):
+                strs[e.get_id()] = e
+            todo.extend(e.children())
+    return list(ints.values()), list(strs.values())
+
+
+def _instantiate(e, ints, strs, limit=4000):
+    """Replace every universally quantified sub-formula in positive position at the top conjunction level."""
+    if z3.is_quantifier(e) and e.is_forall():
+        doms = []
+        for k in range(e.num_vars()):
+            srt = e.var_sort(k)
+            if srt == z3.IntSort():
+                doms.append(ints + [z3.IntVal(0)])
+            elif srt == z3.StringSort():
+                doms.append(strs or [z3.StringVal("")])
+            else:
+                return z3.BoolVal(True)    # unsupported sort: drop the assumption (weaker)
+        import itertools
+        n = 1
+        for d in doms:
+            n *= len(d)
+        if n > limit:
+            return z3.BoolVal(True)
+        out = []
+        # de Bruijn: variable 0 is the LAST bound variable
+        for combo in itertools.product(*doms):
+            out.append(z3.substitute_vars(e.body(), *reversed(combo)))
+        return z3.And(out) if out else z3.BoolVal(True)
+    if z3.is_and(e):
+        return z3.And([_instantiate(c, ints, strs, limit) for c in e.children()])
+    return e
+
+
+def finite_scope(ob, timeout_ms=10000, rounds=2):
+    """-> ('proved'|'candidate'|'unknown', model|None)"""
+    goal_neg = z3.Not(ob.goal)
+    pcs = list(ob.pc)
+    ints, strs = _ground_terms(pcs + [goal_neg])
+    # skolemise the negated goal first so that its witnesses join the term universe
+    g = z3.Goal()
+    g.add(goal_neg)
+    try:
+        sk = z3.Then("nnf", "simplify")(g)
+        goal_parts = [f for sub in sk for f in sub]
+    except z3.Z3Exception:
+        goal_parts = [goal_neg]
+    i2, s2 = _ground_terms(goal_parts)
+    ids = {e.get_id() for e in ints}
+    ints += [e for e in i2 if e.get_id() not in ids]
+    ids = {e.get_id() for e in strs}
+    strs += [e for e in s2 if e.get_id() not in ids]
+    inst = []
+    for _ in range(rounds):
+        inst = [_instantiate(c, ints, strs) for c in pcs]
+        more_i, more_s = _ground_terms(inst)
+        ids = {e.get_id() for e in ints}
+        new = [e for e in more_i if e.get_id() not in ids]
+        if not new or len(ints) > 24:
+            break
+        ints += new[: max(0, 24 - len(ints))]
+    s = z3.Solver()
+    s.set("timeout", timeout_ms)
+    for c in inst:
+        s.add(c)
+    for c in goal_parts:
+        s.add(c)
+    r = s.check()
+    if r == z3.unsat:
+        return "proved", None
+    if r == z3.sat:
+        return "candidate", s.model()
+    return "unknown", None
